@@ -24,8 +24,7 @@ def grid_to_melody(grid, tatum, notes, mode='legato'):
     for j, col in enumerate(grid.T):
         for i, row in enumerate(col):
             if row:
-                note = notes[i]
-                note.duration = step
+                note = notes[i].set_duration(step)
                 melody.append(x0.n)
                 melody.append(note)
                 break
